@@ -215,8 +215,36 @@ func exec(s *Scenario, guard bool) (ms []core.Mismatch) {
 			}
 		}
 	}
-	if s.Space == "scene" && len(s.P)+len(s.Q) > 2 {
-		// scenes are multi-contour by construction
+	// the Paths entry points (unsplit operands in a Paths value) must give the region of the Path methods: judged on one
+	// operation per scenario, and only where the Path method itself was right
+	if len(ms) == 0 && s.CP == nil {
+		op := ops[int(hash(s.psvg()+s.qsvg()+s.Emb.Name))%len(ops)]
+		var r *canvas.Path
+		ps, qs := canvas.Paths{s.buildP()}, canvas.Paths{s.buildQ()}
+		ok, msg := latgeo.Try(func() {
+			switch op {
+			case "and":
+				r = ps.And(qs)
+			case "or":
+				r = ps.Or(qs)
+			case "xor":
+				r = ps.Xor(qs)
+			case "not":
+				r = ps.Not(qs)
+			default:
+				r = ps.DivideBy(qs)
+			}
+		})
+		if !ok {
+			ms = append(ms, core.Mismatch{Signature: "paths-entry-panic-" + op + ":" + latgeo.PanicClass(msg) + "+" + s.tag(), Detail: fmt.Sprintf("Paths{P}.%s(Paths{Q}) panics although P.%s(Q) does not: P=%s Q=%s emb=%s: %v", op, op, s.psvg(), s.qsvg(), s.Emb.Name, msg)})
+		} else if w, err := latgeo.Windings(r, pts, 8); err == nil {
+			for i, e := range s.Exp[op] {
+				if e != 2 && (w[i] != 0) != (e == 1) {
+					ms = append(ms, core.Mismatch{Signature: "paths-entry-cells-" + op + "+" + s.tag(), Detail: fmt.Sprintf("Paths{P}.%s(Paths{Q}) differs from P.%s(Q): P=%s Q=%s emb=%s: sample %v expected filled=%d, result winding %d; result=%s", op, op, s.psvg(), s.qsvg(), s.Emb.Name, pts[i], e, w[i], r)})
+					break
+				}
+			}
+		}
 	}
 	if s.Space == "tri" { // deterministic space: known findings are recorded per input
 		for i := range ms {
